@@ -1,5 +1,6 @@
 import Goat.Base.Drive
 import Goat.Model.HeaderMsg
+import Goat.Model.HeaderHist
 /-
 Driver ops of property C11 (header codec and header placement).
 Wire form of a Header: an object with one member per struct field (`_` = Go nil) and `raw`.
@@ -70,6 +71,34 @@ def jweOfWire (w : Wire) : JweMsg := {
   recipients := ((w.get? "recipients").getD .none).asArr.map rcpOfWire,
   aad := (getStr? w "aad").getD "" }
 
+/-- a history operation from its wire form `[name, index, args…]`; a plain setter carries the
+    field name and the value in the same wire form as the header member -/
+def hopOfWire (w : Wire) : Option HOp :=
+  let a := w.asArr
+  let i := (a.getD 1 .none).asNat
+  match (a.getD 0 .none).asStr with
+  | "set" =>
+    match Fld.ofString (a.getD 2 .none).asStr with
+    | some f => some (.set i f ((hdrOfWire (.obj [((a.getD 2 .none).asStr, a.getD 3 .none)])).get f))
+    | none => none
+  | "setcrit" => some (.setCritical i ((a.getD 2 .none).asArr.map Wire.asStr))
+  | "setb64" => some (.setBase64 i (a.getD 2 .none).asBool)
+  | "unmarshal" => some (.unmarshal i (a.getD 2 .none).asBytes)
+  | "clone" => some (.clone i)
+  | "rawset" => some (.rawSet i (a.getD 2 .none).asStr (a.getD 3 .none))
+  | "rawdel" => some (.rawDel i (a.getD 2 .none).asStr)
+  | "marshal" => some (.marshal i)
+  | _ => none
+
+def histOp (a : List Wire) : Prog Wire :=
+  let isJWE := (arg a 0).asBool
+  let hdrs := (arg a 1).asArr.map hdrOfWire
+  match (arg a 2).asArr.mapM hopOfWire with
+  | none => Prog.ret (.arr [.str "err", .str "bad-op"])
+  | some ops =>
+    (do let st ← hrun isJWE ops { hdrs := hdrs, outs := [] }
+        pure (Wire.obj [("hdrs", .arr (st.hdrs.map hdrToWire)), ("outs", .arr (st.outs.map Outcome.toWire))]) : PO Wire).toOp
+
 def mapW {α} (f : α → Wire) (p : PO α) : Prog Wire := (do let a ← p; pure (f a) : PO Wire).toOp
 def strs (l : List String) : Wire := .arr (l.map Wire.str)
 
@@ -80,6 +109,7 @@ def ops : OpTable := [
   ("c11.jwe.decode", fun a => mapW hdrToWire (jweDecodeHeader (arg a 0).asObj)),
   ("c11.jws.unmarshal", fun a => mapW hdrToWire (jwsUnmarshalHeader (arg a 0).asBytes)),
   ("c11.jwe.unmarshal", fun a => mapW hdrToWire (jweUnmarshalHeader (arg a 0).asBytes)),
+  ("c11.hist", histOp),
   ("c11.jws.setcrit", pureOp fun a => hdrToWire (jwsSetCritical (hdrOfWire (arg a 0)) ((arg a 1).asArr.map Wire.asStr))),
   ("c11.jws.setb64", pureOp fun a => hdrToWire (jwsSetBase64 (hdrOfWire (arg a 0)) (arg a 1).asBool)),
   ("c11.jws.sign", fun a => mapW msgToWire (jwsSign (msgOfWire (arg a 0)) (optHdrOfWire (arg a 1)) (optHdrOfWire (arg a 2)))),
